@@ -178,3 +178,30 @@ func Unmarshal(src string, target any, opts ...bcl.Option) error {
 	Scribble(in)
 	return err
 }
+
+// Poison writes a foreign key into every Fields map reachable from the results of a call (the caller owns them).
+func Poison(blocks []bcl.Block, binding bcl.Binding) {
+	var walk func(b bcl.Block)
+	walk = func(b bcl.Block) {
+		if b.Fields == nil {
+			return
+		}
+		for _, v := range b.Fields {
+			if c, ok := v.(bcl.Block); ok {
+				walk(c)
+			}
+		}
+		b.Fields["\x00poisoned by the caller"] = 666
+	}
+	for _, b := range blocks {
+		walk(b)
+	}
+	switch x := binding.(type) {
+	case bcl.StructBinding:
+		walk(x.Value)
+	case bcl.SliceBinding:
+		for _, b := range x.Value {
+			walk(b)
+		}
+	}
+}
